@@ -1056,6 +1056,10 @@ impl TransactionBuilder {
         change_config: &ChangeConfig,
         collateral_percentage: &BigNum,
     ) -> Result<(), JsError> {
+        // a failed attempt leaves neither field set, whatever was there before the call
+        self.remove_collateral_return();
+        self.remove_total_collateral();
+
         let mut total_collateral = Value::zero();
         for collateral_input in self.collateral.iter() {
             total_collateral = total_collateral.checked_add(&collateral_input.amount)?;
